@@ -86,7 +86,7 @@ def read_stream(run, drv, n_cases, malformed=False, cases=None):
         run.count("read.adv_position", pos)
         run.count("read.kinds", G.ix_kinds(ix))
         run.count("read.rank_sd", f"rank{len(bs)}/sd{sd}/n{n}")
-        with time_limit(20):
+        with time_limit(180):
             L, ms = G.mk_lazy(bs, n, sd - (len(bs) + 1) if neg else sd, feats, via="ctor" if j % 2 else "lazy_stack")
             impl, r = G.impl_get(L, ix, feats)
             # _split_index counters
@@ -98,18 +98,18 @@ def read_stream(run, drv, n_cases, malformed=False, cases=None):
         run.count("read.outcome", impl[0] + ("/" + impl[1][1] if impl[0] == "ok" else ""))
         has_bool = m_split[0] == "ok" and m_split[5][1] == "true"
         mask_rank = max([len(it[1]) for it in ix if it[0] == "mask"] or [0])
-        modelled = not (has_bool and mask_rank >= 2)  # rank>=2 mask on / spanning the stack dim: outside the model
+        modelled = not (has_bool and mask_rank >= 3)  # rank>=3 mask on / spanning the stack dim: outside the model
         # (Ellipsis next to a rank>=2 mask is inside the model again: convert_ellipsis_to_idx now counts the dims of a mask)
         if modelled:
             run.corr(stream, case, impl, m_get)
             if has_bool:
                 run.count("read.has_bool_modelled", impl[0] + ("/" + impl[1][1] if impl[0] == "ok" else ""))
         else:
-            run.count("read.outside_model", "has_bool_rank>=2")
+            run.count("read.outside_model", "has_bool_rank>=3")
         run.corr("split_index", case, i_split, m_split)
         # ---- oracle: dense stack of clones
         if impl[0] == "ok" and impl[1][1] != "empty":
-            with time_limit(20):
+            with time_limit(180):
                 dense = G.dense_of(ms, sd)
                 index = G.index_py(ix)
                 try:
@@ -179,7 +179,7 @@ def write_stream(run, drv, n_cases):
         run.case(("set", bs, n, sd, str(ix)), nontrivial=len(ix) > 0)
         run.count("write.adv_position", pos)
         index = G.index_py(ix)
-        with time_limit(20):
+        with time_limit(180):
             L, ms = G.mk_lazy(bs, n, sd, feats)
             dense = G.dense_of(ms, sd)
             # the indexed batch size, from torch on a proxy of the batch shape
@@ -290,7 +290,7 @@ def shape_stream(run, drv, n_cases, exhaustive=False):
         case = {"bs": list(bs), "n": n, "sd": sd, "op": list(op)}
         run.case(("shape", bs, n, sd, op))
         run.count("shape.op", op[0])
-        with time_limit(20):
+        with time_limit(180):
             L, ms = G.mk_lazy(bs, n, sd, feats)
             dense = G.dense_of(ms, sd)
 
@@ -377,7 +377,7 @@ def cat_stream(run, drv, n_cases):
         case = {"sd": sd, "dim": dim, "ops": [[list(b), n] for b, n in ops]}
         run.case(("cat", sd, dim, str(ops)))
         run.count("cat.position", "on_sd" if (dim % (len(ops[0][0]) + 1)) == sd else "off_sd")
-        with time_limit(20):
+        with time_limit(180):
             Ls, Ds = [], []
             for j, (b, n) in enumerate(ops):
                 L, ms = G.mk_lazy(b, n, sd, feats)
@@ -411,6 +411,192 @@ def cat_stream(run, drv, n_cases):
                 run.oracle_ok("cat")
         else:
             run.oracle_ok("cat_raises")
+
+
+def misc_stream(run, drv, n_cases):
+    """correspondence for torch.stack of lazy stacks (same stack dim), insert / append and update_"""
+    rng = run.rng
+    feats = G.FEATS_PLAIN
+    fs = Raw("(feats" + "".join(" (" + " ".join([k] + [str(x) for x in f]) + ")" for k, f in feats) + ")")
+    reqs, metas = [], []
+    for _ in range(n_cases):
+        rank = rng.choice([0, 1, 1, 2, 2])
+        bs = tuple(rng.choice([1, 2, 3]) for _ in range(rank))
+        sd = rng.randint(0, rank)
+        n = rng.randint(1, 3)
+        kind = rng.choice(["stack", "stack", "insert", "append", "update_"])
+        if kind == "stack":
+            r = rank + 1
+            dim = rng.randrange(-r - 1, r + 1)
+            nops = rng.randint(1, 3)
+            ops = [(bs if rng.random() < 0.95 else bs + (1,), n if rng.random() < 0.95 else n + 1) for _ in range(nops)]
+            metas.append((kind, bs, n, sd, (dim, ops)))
+            reqs.append(sx("c08.stack", sd, dim, fs, *[Raw(sx("op", ["bs"] + list(b), k)) for b, k in ops]))
+        elif kind in ("insert", "append"):
+            index = rng.randint(-n - 2, n + 2) if kind == "insert" else n
+            metas.append((kind, bs, n, sd, index))
+            reqs.append(sx("c08.insert", ["bs"] + list(bs), n, sd, fs, index))
+        else:
+            keys = rng.choice([["a"], ["b"], ["a", "b"]])
+            metas.append((kind, bs, n, sd, keys))
+            reqs.append(sx("c08.update_", ["bs"] + list(bs), n, sd, fs, ["keys"] + keys))
+    answers = G.ask_all(drv, reqs)
+    for (kind, bs, n, sd, arg), a in zip(metas, answers):
+        model = parse_sx(a)
+        case = {"kind": kind, "bs": list(bs), "n": n, "sd": sd, "arg": arg}
+        run.case(("misc", kind, bs, n, sd, str(arg)))
+        run.count("misc.kind", kind)
+        with time_limit(180):
+            if kind == "stack":
+                dim, ops = arg
+                Ls, Ds = [], []
+                for j, (b, k) in enumerate(ops):
+                    try:
+                        L, ms = G.mk_lazy(b, k, sd, feats)
+                    except Exception:  # noqa: BLE001
+                        L = None
+                        break
+                    for m in ms:
+                        for kk, _ in feats:
+                            G.get_leaf(m, kk).add_(j * 1000000)
+                    Ls.append(L)
+                    Ds.append(G.dense_of(ms, sd))
+                r_full = len(bs) + 1
+                try:
+                    r = torch.stack(Ls, dim)
+                    impl = ["ok", G.impl_kind(r)] + G.td_canon(r, feats)
+                except Exception:  # noqa: BLE001
+                    r, impl = None, ["err"]
+                try:
+                    dr = torch.stack(Ds, dim)
+                except Exception:  # noqa: BLE001
+                    dr = None
+                if not (-r_full - 1 <= dim <= r_full):
+                    run.count("misc.invalid_dim", impl[0])
+                    continue
+            elif kind in ("insert", "append"):
+                L, ms = G.mk_lazy(bs, n, sd, feats)
+                new = G.mk_member(bs, feats, 0)
+                for kk, _ in feats:
+                    G.get_leaf(new, kk).add_(7 * 1000000)
+                order = list(ms)
+                try:
+                    if kind == "append":
+                        L.append(new)
+                        order.append(new)
+                    else:
+                        L.insert(arg, new)
+                        order.insert(arg, new)
+                    impl = ["ok", G.impl_kind(L)] + G.td_canon(L, feats)
+                    r = L
+                except Exception:  # noqa: BLE001
+                    r, impl = None, ["err"]
+                dr = G.dense_of(order, sd) if r is not None else None
+            else:
+                L, ms = G.mk_lazy(bs, n, sd, feats)
+                dense = G.dense_of(ms, sd)
+                v = G.mk_value(tuple(dense.batch_size), feats).select(*arg)
+                try:
+                    L.update_(v.clone())
+                    impl = G.members_canon(L, feats)
+                    r = torch.stack([m.clone() for m in ms], sd)
+                except Exception:  # noqa: BLE001
+                    r, impl = None, ["err"]
+                try:
+                    dense.update_(v.clone())
+                    dr = dense
+                except Exception:  # noqa: BLE001
+                    dr = None
+        run.count("misc.outcome", kind + ":" + impl[0])
+        run.corr("misc_" + ("stack" if kind == "stack" else "insert" if kind in ("insert", "append") else "update_"), case, impl, model)
+        if r is not None and dr is not None:
+            diff = G.same_td(r, dr)
+            if diff:
+                run.oracle_fail("misc:" + kind, case, f"{kind} differs from the dense stack: {diff}", "misc:" + kind)
+            else:
+                run.oracle_ok("misc:" + kind)
+        else:
+            run.oracle_ok("misc_raises:" + kind)
+
+
+def two_level_stream(run, drv, n_cases):
+    """correspondence + oracle for reads on a lazy stack of lazy stacks (Model/C08Lazy2.lean)"""
+    from tensordict import LazyStackedTensorDict
+    rng = run.rng
+    feats = G.FEATS_PLAIN
+    fs = Raw("(feats" + "".join(" (" + " ".join([k] + [str(x) for x in f]) + ")" for k, f in feats) + ")")
+    reqs, metas = [], []
+    for _ in range(n_cases):
+        rank = rng.choice([0, 1, 1, 2])
+        bs = tuple(rng.choice([1, 2, 3]) for _ in range(rank))
+        nin, nout = rng.randint(1, 3), rng.randint(1, 3)
+        sdin = rng.randint(0, rank)
+        sdout = rng.randint(0, rank + 1)
+        full = list(bs)
+        full.insert(sdin, nin)
+        full.insert(sdout, nout)
+        ix = G.gen_index(rng, full)
+        metas.append((bs, nin, nout, sdin, sdout, ix))
+        reqs.append(sx("c08.get2", ["bs"] + list(bs), nin, nout, sdin, sdout, fs, G.ixs_sx(ix)))
+    answers = G.ask_all(drv, reqs)
+    for (bs, nin, nout, sdin, sdout, ix), a in zip(metas, answers):
+        model = parse_sx(a)
+        case = {"bs": list(bs), "n_in": nin, "n_out": nout, "sd_in": sdin, "sd_out": sdout, "ix": ix}
+        run.case(("get2", bs, nin, nout, sdin, sdout, str(ix)))
+        with time_limit(180):
+            inners, denses = [], []
+            for j in range(nout):
+                L, ms = G.mk_lazy(bs, nin, sdin, feats)
+                for m in ms:
+                    for kk, _ in feats:
+                        G.get_leaf(m, kk).add_(j * 1000000)
+                inners.append(L)
+                denses.append(G.dense_of(ms, sdin))
+            LL = LazyStackedTensorDict(*inners, stack_dim=sdout)
+            DD = torch.stack(denses, sdout)
+            index = G.index_py(ix)
+            try:
+                r = LL[index]
+                if isinstance(r, LazyStackedTensorDict) and O.is_empty_lazy(r):
+                    impl = ["ok", ["kind", "empty"], ["bs"] + list(r.batch_size)]
+                else:
+                    impl = ["ok", "K"] + G.td_canon(r, feats)
+            except Exception:  # noqa: BLE001
+                r, impl = None, ["err"]
+            try:
+                dr = DD[index]
+            except Exception:  # noqa: BLE001
+                dr = None
+        # which outer branch? (model says); the model covers: no integer tensor on the outer stack dim, masks of rank 1 on it
+        on_outer = G.adv_position([i for i in ix], sdout)
+        adv = [it for it in ix if it[0] in ("tens", "mask")]
+        outer_cursor_adv = None
+        modelled = True
+        if adv:
+            it = adv[0]
+            pos = G.adv_position(G.expand_ell(ix, len(bs) + 2), sdout)
+            if it[0] == "tens" and pos == "on":
+                modelled = False
+            if it[0] == "mask" and len(it[1]) >= 2 and pos in ("on", "spanning"):
+                modelled = False
+            # a mask / tensor addressed to the INNER stack dim goes through lazyGetCoreM of the inner stacks: modelled
+        run.count("two_level.outcome", impl[0] + ("" if modelled else "/outside_model"))
+        if modelled:
+            m2 = model
+            if m2[0] == "ok" and m2[1][1] != "empty":
+                if len(m2) > 3 and m2[3] == ["leaves"]:
+                    m2 = ["ok", ["kind", "empty"], m2[2]]      # a stack of empty inner results: only a batch size
+                else:
+                    m2 = ["ok", "K"] + m2[2:]
+            run.corr("getitem_two_level", case, impl, m2)
+        if r is not None and dr is not None and not (isinstance(r, LazyStackedTensorDict) and O.is_empty_lazy(r)):
+            diff = G.same_td(r, dr)
+            if diff:
+                run.oracle_fail("two_level", case, f"stack-of-stacks read differs from dense: {diff}", "two_level:read")
+            else:
+                run.oracle_ok("two_level")
+        else:
+            run.oracle_ok("two_level_raises")
 
 
 def spec_stream(run, drv, n_cases):
@@ -455,6 +641,8 @@ def main():
     write_stream(run, drv, 1000 if quick else 15000)
     shape_stream(run, drv, 800, exhaustive=not quick)
     cat_stream(run, drv, 500 if quick else 6000)
+    misc_stream(run, drv, 600 if quick else 6000)
+    two_level_stream(run, drv, 500 if quick else 8000)
     # extended domain: the property's oracle on every supported operation of the real code
     O.read_ops_stream(run, 800 if quick else 12000)
     O.mut_ops_stream(run, 800 if quick else 12000)
